@@ -55,16 +55,27 @@ def gen_ttc(k, memo):
 def compile_text(files):
     """files: {name: text}; the first is the root. -> compiled spec"""
     from maltoolbox.language.compiler import MalCompiler
+    import shutil
     d = sandbox.tmpfile('_d')
+    shutil.rmtree(d, ignore_errors=True)
     os.makedirs(d, exist_ok=True)
-    for n in os.listdir(d):
-        os.remove(os.path.join(d, n))
     root = None
     for n, t in files.items():
+        if n.startswith('@'):
+            continue
+        os.makedirs(os.path.dirname(os.path.join(d, n)), exist_ok=True)
         with open(os.path.join(d, n), 'w', encoding='utf-8') as f:
             f.write(t)
         root = root or os.path.join(d, n)
-    return MalCompiler().compile(root)
+    comp = MalCompiler()
+    if files.get('@reuse'):
+        # the same compiler object compiled another language, in another directory, before
+        d2 = sandbox.tmpfile('_d2')
+        os.makedirs(d2, exist_ok=True)
+        with open(os.path.join(d2, 'other.mal'), 'w', encoding='utf-8') as f:
+            f.write(files['@reuse'])
+        comp.compile(os.path.join(d2, 'other.mal'))
+    return comp.compile(root)
 
 
 def roundtrip(sp, what, stats, viols, classify=None):
@@ -288,6 +299,22 @@ def job_layouts(_job):
             variants.append(('two_includes', {
                 'main.mal': ''.join(decls[:i]) + 'include "inc1.mal"\ninclude "inc2.mal"\n' + ''.join(decls[j:]),
                 'inc1.mal': ''.join(decls[i:m]), 'inc2.mal': ''.join(decls[m:j])}))
+        decoy = 'category Decoy { asset NotIncluded { | bogus } }\n'
+        main = ''.join(decls[:i]) + 'include "parts/inc1.mal"\n' + ''.join(decls[j:])
+        # the included file lives in a sub-directory; an unrelated file of the same name sits next to the root
+        variants.append(('subdir', {'main.mal': main, 'parts/inc1.mal': ''.join(decls[i:j])}))
+        variants.append(('subdir_decoy', {'main.mal': main, 'parts/inc1.mal': ''.join(decls[i:j]), 'inc1.mal': decoy}))
+        variants.append(('cyclic', {'main.mal': files['main.mal'], 'inc1.mal': ''.join(decls[i:j]) + 'include "main.mal"\n'}))
+        variants.append(('compiler_reused', dict(files, **{'@reuse': '#id: "other"\n#version: "1.0.0"\n' + decoy})))
+        if j - i >= 2:
+            m = i + 1
+            # an include inside an included file is relative to THAT file
+            variants.append(('nested_relative', {'main.mal': main, 'parts/inc1.mal': ''.join(decls[i:m]) + 'include "inc2.mal"\n',
+                                                 'parts/inc2.mal': ''.join(decls[m:j]), 'inc2.mal': decoy}))
+            variants.append(('nested_updir', {'main.mal': main, 'parts/inc1.mal': ''.join(decls[i:m]) + 'include "../inc2.mal"\n',
+                                              'inc2.mal': ''.join(decls[m:j]), 'parts/inc2.mal.bak': decoy}))
+            variants.append(('nested_deeper', {'main.mal': main, 'parts/inc1.mal': ''.join(decls[i:m]) + 'include "more/inc2.mal"\n',
+                                               'parts/more/inc2.mal': ''.join(decls[m:j])}))
         for vname, fs in variants:
             try:
                 got = compile_text(fs)
@@ -325,7 +352,7 @@ def run(tier, seed):
                 'contexts (->, +>, <-, let) alone and at first/middle/last list position; every TTC tree up to the bound; all '
                 '49 multiplicity form pairs; the product of step kinds x tags x CIA subsets x TTC forms x meta x reaches forms; '
                 'asset / category / define / association forms; every contiguous segment of a 6-declaration program moved to an '
-                'included file (plus repeated, nested and sibling includes); both shipped .mar specifications. '
+                'included file (plus repeated, nested, sibling, sub-directory, relative-to-includer, cyclic includes, decoy files of the same name, a re-used compiler); both shipped .mar specifications. '
                 'Oracle: compile(unparse(spec)) == spec; layouts agree. Distinct = distinct expression / TTC trees and forms')
     kexpr, kttc = (2, 2) if tier == 'quick' else (3, 3)
     memo = {}
